@@ -150,6 +150,8 @@ Definition pop : parser op :=
   match c with
   | 80 => (args <~ plist pstr ;; pret (OpParse args))                (* P *)
   | 73 => (t <~ pstr ;; d <~ pbool ;; pret (OpIni t d))              (* I *)
+  | 72 => pret OpHelp                                                (* H *)
+  | 77 => pret OpMan                                                 (* M *)
   | _ => (n <~ pN ;; pret (OpWriteIni n))                            (* W *)
   end.
 
@@ -161,11 +163,11 @@ Definition pcfg : parser pconfig :=
   name <~ pstr ;;
   h <~ pbool ;; dd <~ pbool ;; ig <~ pbool ;; pr <~ pbool ;; pa <~ pbool ;;
   nsd <~ pstr ;; envd <~ pstr ;; hk <~ phandler ;; ch <~ pbool ;; usage <~ pstr ;;
-  env <~ plist (ppair pstr pstr) ;; cols <~ pN ;;
+  env <~ plist (ppair pstr pstr) ;; cols <~ pN ;; sd <~ pstr ;; ld <~ pstr ;;
   pret {| pc_name := name;
           pc_opts := {| po_help := h; po_passdd := dd; po_ignore := ig; po_print := pr; po_passafter := pa |};
           pc_nsdelim := nsd; pc_envdelim := envd; pc_handler := hk; pc_cmdhandler := ch; pc_usage := usage;
-          pc_env := env; pc_cols := cols |}.
+          pc_env := env; pc_cols := cols; pc_shortdesc := sd; pc_longdesc := ld |}.
 
 Definition psum {A B} (p : parser A) (q : parser B) : parser (A + B) :=
   c <~ pbyte ;; if N.eqb c 49 then (a <~ p ;; pret (inl a)) else (b <~ q ;; pret (inr b)).
